@@ -323,6 +323,11 @@ def run(ck):
             s.note(("pattern", pat, size))
             reqs.append((("pattern", pat, size), f"pattern {kind} {v} {size}", canon(r)))
             s.expect(r[0] == "ok" and len(r[1]) == size, ("pattern", pat, size), "BinaryPattern.get_block returns the wrong length", r)
+            # the documented content, stated independently of the model: zeros / ones / 0,1,2,... mod 256 / the number's own minimal big-endian bytes repeated
+            unit = {"zeros": b"\x00", "ones": b"\xff", "inc": bytes(range(256))}.get(kind) or v.to_bytes(max(1, (v.bit_length() + 7) // 8), "big")
+            want = (unit * (size // len(unit) + 1))[:size]
+            s.expect(r[0] == "ok" and r[1] == want, ("pattern", pat, size), "BinaryPattern.get_block is not the documented pattern (name, or the number's minimal "
+                     "big-endian bytes, repeated and cut to the size)", r, hexs(want))
     for n in (1, 4, 8, 16, 32, 33, 64):
         for x in sorted(set(v for v in [0, 1, 2, 2 ** n - 1, 2 ** (n - 1)] + [rng.getrandbits(n) for _ in range(20)] if v < 2 ** n)):
             r = pyres(misc.reverse_bits, x, n)
